@@ -10,8 +10,8 @@ import ast
 
 from ..model import AnalysisError, unparse
 from ..report import RuleResult
-from ._c20_sem import (Flow, attr_stores, callee_names, const_seq, dict_keys, is_em_dataset, is_metadata_of, is_self, keys_read,
-                       specialise, view)
+from ._c20_sem import (Flow, assume_truth, attr_stores, callee_names, const_seq, dict_keys, is_em_dataset, is_metadata_of, is_self,
+                       keys_read, reach_assuming, specialise, view)
 
 
 def _global_resolver(p, mod):
@@ -686,4 +686,253 @@ def rule_mangle(ctx) -> RuleResult:
     return res
 
 
-RULES = [rule_keys, rule_prop, rule_copy, rule_store, rule_mangle]
+def _stmt_nodes(g):
+    return [n for n in g.nodes if n.ast is not None and not isinstance(n.ast, (list, ast.If, ast.For, ast.While, ast.With, ast.Try)) and n.kind not in ("test", "foriter", "fornext")]
+
+
+def rule_linkcache(ctx) -> RuleResult:
+    res = RuleResult(
+        "C20.LINKCACHE",
+        "C20",
+        "every link setter that records the partner in the metadata also re-binds (or resets) the cache field its getter "
+        "fills and returns — and where the class' metadata setter resolves the partners through that getter (EM surveys: "
+        "the shared dictionary is pushed to getattr(self, <link>)), it does so BEFORE the metadata is handed over on every "
+        "path: otherwise a re-link answers / propagates to the previously cached partner",
+        floor=5,
+    )
+    p = ctx.p
+    from ..cfg import CFG
+    from ..kinds import reach
+
+    mod, type_map, omit = em_tables(ctx)
+    sites, seen = [], set()
+    for K, _typ in em_classes(ctx):
+        for link in type_map.values():
+            m = K.lookup(link)
+            if m and m[1] == "prop" and m[2].getter is not None and m[2].setter is not None and m[2].setter not in seen:
+                seen.add(m[2].setter)
+                sites.append((m[2].setter.cls, link, m[2].getter, m[2].setter))
+    for cname, link in (("PotentialElectrode", "current_electrodes"), ("CurrentElectrode", "potential_electrodes")):
+        pr = p.cls(cname).props.get(link)
+        if pr is None or pr.getter is None or pr.setter is None:
+            raise AnalysisError(f"anchor {cname}.{link} not found")
+        sites.append((p.cls(cname), link, pr.getter, pr.setter))
+    for K, link, g, s in sites:
+        # the cache: a field of self the getter both fills and returns
+        gfl = _flow(ctx, g, K)
+        gsn = g.self_name or "self"
+        returned = {o.attr for r in ast.walk(gfl.node) if isinstance(r, ast.Return) and r.value is not None for o in gfl.origins(r.value)
+                    if isinstance(o, ast.Attribute) and is_self(o.value, gsn)}
+        filled = {f for f in returned if any(any(is_self(a, gsn) for a in gfl.origins(r)) for r, _, _ in attr_stores(gfl.node, f, gfl))}
+        if not filled:
+            res.notes.append(f"{K.name}.{link}: the getter keeps no cache — nothing to re-bind")
+            continue
+        if len(s.params) < 2:
+            raise AnalysisError(f"anchor {K.name}.{link} setter has no value parameter")
+        sn, prm = s.params[0], s.params[1]
+        fl = _flow(ctx, s, K)
+        cfg = CFG(fl.view_node)
+
+        def records(a) -> bool:
+            """the statement hands the link to the metadata setter: self.edit_em_metadata(..) / self.metadata = .."""
+            if any(any(is_self(x, sn) for x in fl.origins(r)) for r, _, _ in attr_stores(a, "metadata", fl)):
+                return True
+            return any(isinstance(c, ast.Call) and "edit_em_metadata" in callee_names(fl, c) for c in ast.walk(a))
+
+        def rebinds(a) -> bool:
+            for f in filled:
+                for r, v, _ in attr_stores(a, f, fl):
+                    if not any(is_self(x, sn) for x in fl.origins(r)):
+                        continue
+                    vals = fl.origins(v)
+                    if (isinstance(v, ast.Name) and v.id == prm) or any(isinstance(o, ast.Name) and o.id == prm for o in vals) \
+                            or (vals and all(isinstance(o, ast.Constant) and o.value is None for o in vals)):
+                        return True
+            return False
+
+        nodes = _stmt_nodes(cfg)
+        events = [n for n in nodes if records(n.ast)]
+        if not events:
+            res.notes.append(f"{K.name}.{link}: the setter records nothing in the metadata")
+            continue
+        stores = {n for n in nodes if rebinds(n.ast)}
+        # does the metadata setter of this class resolve its partners through this link's getter?
+        ms = K.lookup("metadata")
+        ordered = False
+        if ms and ms[1] == "prop" and ms[2].setter is not None:
+            mfl = _flow(ctx, ms[2].setter, K)
+            msn = ms[2].setter.self_name or "self"
+            for n in ast.walk(mfl.node):
+                if isinstance(n, ast.Call) and isinstance(n.func, ast.Name) and n.func.id == "getattr" and len(n.args) >= 2 and any(is_self(x, msn) for x in mfl.origins(n.args[0])):
+                    ordered = ordered or link in (mfl.consts(n.args[1]) or ())
+                elif isinstance(n, ast.Attribute) and isinstance(n.ctx, ast.Load) and n.attr == link and is_self(n.value, msn):
+                    ordered = True
+        before = reach(cfg, [cfg.entry], avoid=lambda n: n in stores)
+        if ordered:
+            ok = not any(e in before for e in events)
+            what = "before the metadata is handed to the metadata setter"
+        else:
+            ok = not any(e in before and cfg.exit in reach(cfg, [e], avoid=lambda n: n in stores) for e in events)
+            what = "on every path that records the link"
+        fld = sorted(filled)[0]
+        res.inst(f"{K.name}.{link} setter re-binds self.{fld} {what}", nontrivial=True, ok=ok)
+        if not ok:
+            if ordered:
+                res.find(K.name, link, f"partner cache {fld} is not re-bound before the metadata is recorded", s.where,
+                         f"the metadata setter pushes the shared dictionary to getattr(self, '{link}'), which answers from the cache: on a re-link the "
+                         "new identifiers go to (and are stored for) the PREVIOUS partner, the new partner never receives them")
+            else:
+                res.find(K.name, link, f"partner cache {fld} is not re-bound by the link setter", s.where,
+                         f"after re-linking, the getter keeps answering with the previously cached partner while the metadata names the new one "
+                         "(copies and the A-B cell ids follow the stale partner until the file is re-opened)")
+    return res
+
+
+def rule_copymeta(ctx) -> RuleResult:
+    res = RuleResult(
+        "C20.COPYMETA",
+        "C20",
+        "in copy of the EM survey classes, no entry of the SOURCE's own metadata dictionary that is an entity reference "
+        "(a uuid.UUID value: the link identifiers) is written into the new entity's metadata: the write is unreachable / "
+        "filtered out under the assumption `isinstance(value, UUID)` (three-valued over the guards on the way, through "
+        "filtering comprehensions and generator helpers)",
+        floor=1,
+    )
+    p = ctx.p
+    from ..cfg import CFG
+
+    MSG = ("the copy records the ORIGINAL entities' identifiers; its metadata setter resolves the originals through them and pushes "
+           "the copy's dictionary onto them: copy and original end up cross-linked")
+    CONSTRUCT = "entity references (UUID values) of the source's metadata are copied to the new entity"
+
+    def facts(var):
+        f = {"UUID": True, "notnone:" + var: True, "truthy:" + var: True}
+        f.update({k: False for k in ("str", "int", "float", "bool", "list", "tuple", "dict", "set", "bytes", "ndarray")})
+        return f
+
+    def analyse(fn, fl, body, sn, events_of, depth):
+        """events_of(stmt) -> value expressions the statement writes to the new entity (or, in a generator helper, yields)."""
+        cfg = CFG(body)
+
+        def own(e) -> bool:
+            return any(is_metadata_of(x, sn) for x in ast.walk(e))
+
+        def comp_filtered(c):
+            """None: not a comprehension over the own metadata; else whether its conditions exclude UUID values."""
+            gens = [gn for gn in c.generators if any(own(y) for y in fl.values(gn.iter))]
+            if not gens:
+                return None
+            return all(any(assume_truth(fl, t, var, facts(var)) is False for t in gn.ifs for var in [x.id for x in ast.walk(gn.target) if isinstance(x, ast.Name)])
+                       for gn in gens)
+
+        def sources(v, seen=()):
+            """how the value v comes out of the source's own metadata: [('direct', var) | ('comp', filtered?) | ('gen', fn node, call)]"""
+            out = []
+            if not isinstance(v, ast.Name) or v.id in seen:
+                return out
+            for tgt, it in fl.stmt_loops:
+                if not any(isinstance(x, ast.Name) and x.id == v.id for x in ast.walk(tgt)):
+                    continue
+                work = list(fl.origins(it))
+                while work:
+                    o = work.pop()
+                    if isinstance(o, ast.Call) and isinstance(o.func, ast.Attribute) and o.func.attr == "items" and not o.args \
+                            and isinstance(tgt, (ast.Tuple, ast.List)) and len(tgt.elts) == 2 and not (isinstance(tgt.elts[1], ast.Name) and tgt.elts[1].id == v.id):
+                        continue  # v is the KEY of the pair
+                    if isinstance(o, ast.Call) and isinstance(o.func, ast.Attribute) and o.func.attr in ("items", "values") and not o.args:
+                        inner = fl.origins(o.func.value)
+                        if not (len(inner) == 1 and inner[0] is o.func.value):
+                            work += inner
+                            continue
+                    if isinstance(o, ast.Call) and isinstance(o.func, ast.Name) and o.func.id in ("list", "tuple", "sorted", "iter", "reversed", "dict") and len(o.args) == 1:
+                        work += fl.origins(o.args[0])
+                        continue
+                    if isinstance(o, (ast.DictComp, ast.ListComp, ast.SetComp, ast.GeneratorExp)):
+                        f = comp_filtered(o)
+                        if f is not None:
+                            out.append(("comp", f))
+                        continue
+                    g = fl.outer("callable", o) if isinstance(o, ast.Call) and fl.outer is not None else None
+                    if g is not None and any(isinstance(y, (ast.Yield, ast.YieldFrom)) for y in ast.walk(g)):
+                        out.append(("gen", g, o))
+                    elif own(o):
+                        out.append(("direct", v.id))
+            # an alias of such a variable
+            for d in fl.defs.get(v.id, []):
+                if isinstance(d, ast.Name):
+                    out += sources(d, seen + (v.id,))
+            return out
+
+        for n in _stmt_nodes(cfg):
+            for v in events_of(n.ast):
+                if isinstance(v, ast.DictComp):
+                    # a filtering comprehension handed over directly
+                    f = comp_filtered(v)
+                    srcs = [("comp", f)] if f is not None else []
+                else:
+                    srcs = sources(v)
+                for src in srcs:
+                    where = f"{fn.module.relpath}:{n.lineno}"
+                    if src[0] == "direct":
+                        var = src[1]
+                        f = facts(var)
+                        ok = n not in reach_assuming(cfg, lambda t, var=var, f=f: assume_truth(fl, t, var, f))
+                        res.inst(f"{fn.qualname}:{n.lineno} source metadata entry -> new entity: not reached when the value is a UUID", nontrivial=True, ok=ok)
+                    elif src[0] == "comp":
+                        ok = src[1]
+                        res.inst(f"{fn.qualname}:{n.lineno} source metadata entries -> new entity through a comprehension: filtered out when the value is a UUID", nontrivial=True, ok=ok)
+                    else:
+                        if depth >= 2:
+                            continue
+                        gnode = src[1]
+                        gsn = gnode.args.args[0].arg if gnode.args.args else "self"
+                        gfl = Flow(gnode, fl.tables, fl.outer)
+
+                        def yields(a):
+                            out = []
+                            for y in ast.walk(a):
+                                if isinstance(y, ast.Yield) and y.value is not None:
+                                    out += list(y.value.elts) if isinstance(y.value, ast.Tuple) else [y.value]
+                            return out
+
+                        analyse(fn, gfl, gnode, gsn, yields, depth + 1)
+                        continue
+                    if not ok:
+                        res.find(fn.cls.name, fn.name, CONSTRUCT, where, MSG)
+
+    base = p.cls("BaseEMSurvey")
+    seen = set()
+    for K in [c for c in p.classes if not c.synthetic and base in c.mro]:
+        fn = K.methods.get("copy")
+        if fn is None or fn in seen:
+            continue
+        seen.add(fn)
+        sn = fn.self_name or "self"
+        fl = _flow(ctx, fn, K)
+
+        def written(a, fl=fl, sn=sn):
+            """values of the dictionaries this statement writes into ANOTHER entity's metadata"""
+            dicts = []
+            for c in ast.walk(a):
+                if isinstance(c, ast.Call) and isinstance(c.func, ast.Attribute) and "edit_em_metadata" in callee_names(fl, c) \
+                        and not any(is_self(x, sn) for x in fl.origins(c.func.value)):
+                    arg = c.args[0] if c.args else next((k.value for k in c.keywords if k.arg == "entries"), None)
+                    if arg is not None:
+                        dicts.append(arg)
+            for r, v, _ in attr_stores(a, "metadata", fl) + attr_stores(a, "_metadata", fl):
+                if not any(is_self(x, sn) for x in fl.origins(r)):
+                    dicts.append(v)
+            out = []
+            for d in dicts:
+                for o in fl.origins(d):
+                    if isinstance(o, ast.Dict):
+                        out += list(o.values)
+                    elif isinstance(o, ast.DictComp):
+                        out.append(o)
+            return out
+
+        analyse(fn, fl, fl.view_node, sn, written, 0)
+    return res
+
+
+RULES = [rule_keys, rule_prop, rule_copy, rule_store, rule_mangle, rule_linkcache, rule_copymeta]
